@@ -365,9 +365,9 @@ let coq_case (c : case) (s : spend) : string option =
     let khl = String.concat ";" (List.map (fun i -> "(" ^ string_of_int i ^ "," ^ cq_bytes (ke.kh (n_of_int i)) ^ ")") idx) in
     let sigl = String.concat ";" (List.map (fun (a, b) -> "(" ^ cq_bytes a ^ "," ^ cq_bytes b ^ ")") (impl_sigtab s)) in
     let kpl = String.concat ";" (List.map cq_bytes (List.filter (fun k -> List.mem k items) (known_keys ()))) in
-    Some (Printf.sprintf "mkIC %s %s [%s] %d %d [%s] [%s] [%s] [%s] [%s] %s"
+    Some (Printf.sprintf "mkIC %s %s [%s] %d %d %d [%s] [%s] [%s] [%s] [%s] %s"
             (match mo with Some m -> "(Some " ^ cq_ms m ^ ")" | None -> "None")
-            (cq_bytes k) (String.concat ";" (List.map cq_bytes items)) s.lock s.seq kbl khl sigl
+            (cq_bytes k) (String.concat ";" (List.map cq_bytes items)) s.lock s.seq s.txv kbl khl sigl
             (String.concat ";" hashes) kpl expect)
 
 let coq_max = (try int_of_string (Sys.getenv "VERIF_COQ_SAMPLES") with _ -> 0)
